@@ -183,9 +183,10 @@ class AaveWorld:
                     gl = gb = Decimal(0)
                 elif index_kind == "slow":
                     gl, gb = D(round(rng.uniform(0, 2e-6), 12)), D(round(rng.uniform(0, 5e-6), 12))
-                else:  # jumpy
-                    gl = D(round(rng.choice([0, 0, 1e-6, 3e-3, 0.02]) * rng.random(), 12))
-                    gb = D(round(rng.choice([0, 0, 2e-6, 5e-3, 0.05]) * rng.random(), 12))
+                else:  # jumpy; long histories jump as hard but less often, so that an index stays within a few multiples of 1
+                    rare = 1.0 if n <= 250 else 250.0 / n
+                    gl = D(round(rng.choice([0, 0, 1e-6, 3e-3, 0.02]) * rng.random(), 12)) if rng.random() < rare else Decimal(0)
+                    gb = D(round(rng.choice([0, 0, 2e-6, 5e-3, 0.05]) * rng.random(), 12)) if rng.random() < rare else Decimal(0)
                 li = li * (1 + gl)
                 bi = bi * (1 + gb)
                 rows.append({
